@@ -17,7 +17,8 @@ EXPLANATION = (
     "otherwise one call site's arguments leak into the next.  R04.2: every non-None value returned by the "
     "write/read classifier (worder get_assignment_type) is guarded by a membership/equality test of that very value "
     "against a constant collection that folds to a subset of the interpreter's assignment operators "
-    "(token.EXACT_TOKEN_TYPES ending in '=' minus comparisons).  The text of the inlined code is not decided."
+    "(token.EXACT_TOKEN_TYPES ending in '=' minus comparisons).  R04.3 (=R06.1): the definition parser pairs default "
+    "values with exactly posonlyargs + args.  The text of the inlined code is not decided."
 )
 ASSUMPTIONS = ["alias tracking is flow-insensitive (x = self.attr makes x an alias for the whole method)",
                "dict()/list()/set()/.copy()/sorted()/slicing create copies"]
@@ -134,3 +135,15 @@ def check(ctx, res) -> None:
             res.ok("R04.1", f"{g.name}.{attr}", g.where, "not mutated on any path from get_definition")
 
     classifier_table_rule(ctx, res, "R04.2", "rope.base.worder._RealFinder.get_assignment_type")
+
+    # ---- R04.3 (=R06.1): the definition parser behind DefinitionInfo pairs defaults with the right parameters
+    from .. import argalign
+
+    dp = idx.need_func("rope.refactor.functionutils._FunctionDefParser.get_parameters")
+    for pr in argalign.pairings(dp.node):
+        if pr.which != "defaults":
+            continue  # keyword-only parameters: recorded under C06 (inline refuses nothing there, but it is the signature property)
+        res.add("R04.3", f"_FunctionDefParser.get_parameters|pairs:{pr.which}", pr.ok, f"{dp.unit.rel}:{pr.node.lineno}",
+                "defaults are paired with exactly posonlyargs + args" if pr.ok else
+                f"defaults are zipped with a list derived from {sorted(pr.labels)} instead of exactly posonlyargs + args: inline binds default values "
+                "to the wrong parameters at every call site that relies on a default")
